@@ -253,7 +253,7 @@ def behaviours(size):
         out += [("a", "H:a"), ("A", "H:a"), ("", "Hp")]
         out += [("b", ""), ("B", ""), ("ab", ""), ("Ab", ""), ("b", "P:a"), ("b", "G:a"), ("b", "H:a"), ("a", "P:b")]
         # hard-coded after the unpacking; pop/get written inline as an argument of the forwarding call
-        out += [("", "h:a"), ("a", "h:a"), ("", "I:b"), ("", "J:b"), ("", "S:a"), ("", "Q:a"), ("", "Q:b")]
+        out += [("", "h:a"), ("", "I:b"), ("", "J:b"), ("", "S:a"), ("", "Q:a")]
     elif size == "med":
         out = [("", ""), ("a", ""), ("A", ""), ("", "P:a"), ("", "G:a"), ("", "N:a"), ("", "H:a"), ("a", "H:a"), ("", "Hp"), ("b", "")]
     elif size == "small+":
